@@ -278,3 +278,181 @@ Definition data_bytes (r : option json) : bytes :=
   | Some t => marshal t
   | None => b_null
   end.
+
+(* ==== appended: well-typed data, plain projection, __skipErrors-freeness, denied-is-null ==== *)
+
+(* [welltyped_b n parent tns]: the data reached through the selection needs no replacement: every
+   reached, non-skipped position is present (or null/missing and nullable) and of the right JSON
+   kind; enum values are valid and accessible; objects have an acceptable runtime type and are not
+   unresolvable; list items are well-typed.  Independent of [complete]. *)
+Definition wt_scalar (p : list bytes) (nl : bool) (accept : json -> bool) (parent : json) : bool :=
+  match get_path p parent with
+  | None | Some JNull => nl
+  | Some x => accept x
+  end.
+
+Fixpoint welltyped_b (n : node) (parent : json) (tns : list (option bytes)) {struct n} : bool :=
+  match n with
+  | NNull | NStatic _ | NEmptyObj | NEmptyArr => true
+  | NStr p nl => wt_scalar p nl is_jstr parent
+  | NBool p nl => wt_scalar p nl is_jbool parent
+  | NInt p nl => wt_scalar p nl is_jnum parent
+  | NFloat p nl => wt_scalar p nl is_jnum parent
+  | NBigInt p nl => wt_scalar p nl (fun _ => true) parent
+  | NScalar p nl => wt_scalar p nl (fun _ => true) parent
+  | NEnum p nl _ values inacc =>
+    match get_path p parent with
+    | None | Some JNull => nl
+    | Some (JStr s) => mem_bytes s values && negb (mem_bytes s inacc)
+    | Some _ => false
+    end
+  | NArr p nl item =>
+    match get_path p parent with
+    | None | Some JNull => nl
+    | Some (JArr items) =>
+      (fix go (l : list json) : bool :=
+         match l with
+         | [] => true
+         | it :: r => welltyped_b item it tns && go r
+         end) items
+    | Some _ => false
+    end
+  | NObj p nl tyname possible inacc unresolvable fields =>
+    negb unresolvable &&
+    match get_path p parent with
+    | None | Some JNull => nl
+    | Some (JObj m) =>
+      let value := JObj m in
+      let tn := typename_of value in
+      negb (tn_bad tyname possible tn) &&
+      (fix go (fs : list field) : bool :=
+         match fs with
+         | [] => true
+         | Fld name on parent_on auth child :: rest =>
+           (if skip_field on parent_on (tn :: tns) then true else welltyped_b child value (tn :: tns)) && go rest
+         end) fields
+    | Some _ => false
+    end
+  end.
+
+(* the plain projection of the data through the selection *)
+Definition proj_scalar (p : list bytes) (parent : json) : json :=
+  match get_path p parent with Some x => x | None => JNull end.
+
+Fixpoint project (n : node) (parent : json) (tns : list (option bytes)) {struct n} : json :=
+  match n with
+  | NNull => JNull
+  | NStatic v => JStr v
+  | NEmptyObj => JObj []
+  | NEmptyArr => JArr []
+  | NStr p _ | NBool p _ | NInt p _ | NFloat p _ | NBigInt p _ | NScalar p _ | NEnum p _ _ _ _ =>
+    proj_scalar p parent
+  | NArr p _ item =>
+    match get_path p parent with
+    | Some (JArr items) =>
+      JArr ((fix go (l : list json) : list json :=
+               match l with
+               | [] => []
+               | it :: r => project item it tns :: go r
+               end) items)
+    | _ => JNull
+    end
+  | NObj p _ _ _ _ _ fields =>
+    match get_path p parent with
+    | Some (JObj m) =>
+      let value := JObj m in
+      let tns' := typename_of value :: tns in
+      JObj ((fix go (fs : list field) : list (bytes * json) :=
+               match fs with
+               | [] => []
+               | Fld name on parent_on auth child :: rest =>
+                 if skip_field on parent_on tns' then go rest
+                 else (name, project child value tns') :: go rest
+               end) fields)
+    | _ => JNull
+    end
+  end.
+
+(* the key "__skipErrors" occurs nowhere in the data *)
+Definition skip_errors_key : bytes := [95;95;115;107;105;112;69;114;114;111;114;115].
+Fixpoint no_skip_errors (j : json) : bool :=
+  match j with
+  | JArr items =>
+    (fix go (l : list json) : bool :=
+       match l with [] => true | x :: r => no_skip_errors x && go r end) items
+  | JObj m =>
+    (fix go (l : list (bytes * json)) : bool :=
+       match l with
+       | [] => true
+       | (k, v) :: r => negb (bytes_eqb k skip_errors_key) && no_skip_errors v && go r
+       end) m
+  | _ => true
+  end.
+
+(* ---- denied fields are null and reported ---- *)
+Definition pelem_eqb (a b : pelem) : bool :=
+  match a, b with
+  | PName x, PName y => bytes_eqb x y
+  | PIdx i, PIdx j => i =? j
+  | _, _ => false
+  end.
+Fixpoint rpath_eqb (a b : rpath) : bool :=
+  match a, b with
+  | [], [] => true
+  | x :: a', y :: b' => pelem_eqb x y && rpath_eqb a' b'
+  | _, _ => false
+  end.
+Definition has_error (kind : N) (path : rpath) (errs : list gerr) : bool :=
+  existsb (fun e => (ge_kind e =? kind) && rpath_eqb (ge_path e) path) errs.
+
+Section DeniedNull.
+  Variable deny : bytes -> bytes -> bool.
+
+  (* [out] is the rendered tree of node [n] over [src] at response path [path]; at every object
+     position, a non-skipped field whose authorization coordinate (runtime type, else the declared
+     parent type; field) is denied is null in [out] and [errs] holds an EK_UNAUTHORIZED error at
+     that field's path. *)
+  Fixpoint denied_null_b (n : node) (src : json) (path : rpath) (tns : list (option bytes))
+           (errs : list gerr) (out : json) {struct n} : bool :=
+    match n with
+    | NArr p nl item =>
+      match out, get_path p src with
+      | JArr outs, Some (JArr srcs) =>
+        (fix go (srcs outs : list json) (i : N) : bool :=
+           match srcs, outs with
+           | s :: srcs', o :: outs' =>
+             denied_null_b item s (push_names path p ++ [PIdx i]) tns errs o && go srcs' outs' (i + 1)
+           | _, _ => true
+           end) srcs outs 0
+      | _, _ => true
+      end
+    | NObj p nl tyname possible inacc unresolvable fields =>
+      match out, get_path p src with
+      | JObj members, Some (JObj m) =>
+        let value := JObj m in
+        let tn := typename_of value in
+        let tns' := tn :: tns in
+        let path' := push_names path p in
+        (fix go (fs : list field) (ms : list (bytes * json)) : bool :=
+           match fs with
+           | [] => true
+           | Fld name on parent_on auth child :: rest =>
+             if skip_field on parent_on tns' then go rest ms
+             else match ms with
+                  | (k, o) :: ms' =>
+                    (if (match auth with
+                         | Some a => deny (match tn with Some t => t | None => au_parent_type a end) (au_field a)
+                         | None => false
+                         end)
+                     then (match o with JNull => true | _ => false end) &&
+                          has_error EK_UNAUTHORIZED (push_names path' (node_path child)) errs
+                     else denied_null_b child value path' tns' errs o)
+                    && go rest ms'
+                  | [] => true
+                  end
+           end) fields members
+      | _, _ => true
+      end
+    | _ => true
+    end.
+End DeniedNull.
